@@ -818,6 +818,9 @@ func writeDynamic(rng Rand, w *BitWriter, toks []Tok, outBefore int, shape int, 
 			// this may oversubscribe; fall back to literal-code hole only
 		}
 	case FaultOversub:
+		if rng.Intn(3) == 0 && addMaxLenCode(rng, litLens, 15) {
+			break // minimal excess: one more code of the maximal length on top of a complete code
+		}
 		// shorten one code of length >= 2: Kraft sum exceeds 1
 		for k := 0; k < 1000; k++ {
 			sym := rng.Intn(len(litLens))
@@ -838,6 +841,8 @@ func writeDynamic(rng Rand, w *BitWriter, toks []Tok, outBefore int, shape int, 
 			for i := 0; i < 4; i++ {
 				distLens[i] = l
 			}
+		} else if nz >= 2 && rng.Intn(3) == 0 && addMaxLenCode(rng, distLens[:30], 15) {
+			// minimal excess (2^-15): visible only in the count of 15-bit codes
 		} else if nz >= 2 {
 			for k := 0; k < 1000; k++ {
 				sym := rng.Intn(len(distLens))
@@ -982,6 +987,8 @@ func writeDynamic(rng Rand, w *BitWriter, toks []Tok, outBefore int, shape int, 
 		for i := 0; i < 4; i++ {
 			clLens[i] = l
 		}
+	} else if fault == FaultOversubCL && rng.Intn(3) == 0 && addMaxLenCode(rng, clLens, 7) {
+		// minimal excess (2^-7)
 	} else if fault == FaultOversubCL {
 		done := false
 		for k := 0; k < 200 && !done; k++ {
@@ -1077,4 +1084,24 @@ func tokUsesLitSym(toks []Tok, sym int) bool {
 		}
 	}
 	return false
+}
+
+// addMaxLenCode gives one unused symbol a code of the maximal length if (and
+// only if) the lengths already form a complete code, so that the excess is a
+// single code of that length. Reports whether it did.
+func addMaxLenCode(rng Rand, lens []int, maxLen int) bool {
+	kraft := 0
+	var unused []int
+	for i, l := range lens {
+		if l == 0 {
+			unused = append(unused, i)
+		} else {
+			kraft += 1 << uint(maxLen-l)
+		}
+	}
+	if kraft != 1<<uint(maxLen) || len(unused) == 0 {
+		return false
+	}
+	lens[unused[rng.Intn(len(unused))]] = maxLen
+	return true
 }
